@@ -40,6 +40,7 @@ class State:
         self.trace = []         # human readable events on this path
         self.facts = set()      # terms already asserted as typing facts (dedup)
         self.heap = {}          # oid -> dict (object fields / dict) or list
+        self.axioms = set()     # facts assumed as axioms of the value model (not path conditions)
         self.syms = set()       # constant / function symbols occurring in pc
         self.defs = {}          # fact -> name of the constant it defines (fresh when the fact was assumed)
         self.handling = None
@@ -53,6 +54,7 @@ class State:
         n.ghost = dict(self.ghost)
         n.trace = list(self.trace)
         n.heap = {k: (list(v) if isinstance(v, list) else dict(v)) for k, v in self.heap.items()}
+        n.axioms = set(self.axioms)
         n.syms = set(self.syms)
         n.defs = dict(self.defs)
         n.handling = self.handling
@@ -92,15 +94,19 @@ class State:
     def fields(self, obj, write=False):
         return self.cell(obj.oid, write)
 
-    def assume(self, t):
+    def assume(self, t, axiom=False):
+        """axiom=True: a fact that holds of every value of that shape (lengths are non-negative, bytes are
+        0..255, A-MEM, ...), as opposed to a path condition: such facts are not part of quantifier guards"""
         if isinstance(t, bool):
             t = tm.Bool(t)
         if t.op == "bool" and t.val:
             return
         if t.op == "and":
             for a in t.args:
-                self.assume(a)
+                self.assume(a, axiom)
             return
+        if axiom:
+            self.axioms.add(t)
         if t not in self.facts:
             if tm.free_bvars(t) and not getattr(self, "in_quantifier", False):
                 return          # a typing fact about a quantified element: meaningless outside its binder
